@@ -264,6 +264,11 @@ def run_harness(cases, variant='asan', env=None, threads=1, tag='h', case_timeou
         p = os.path.join(d, 'script_%s_%d_%d.txt' % (tag, os.getpid(), idx))
         idx += 1
         write_script(p, todo)
+        keep = os.environ.get('VERIF_KEEP_SCRIPTS')
+        if keep and restarts == 0:
+            # diagnostics (bin/coverage.sh): keep a copy of every script the check runs
+            os.makedirs(keep, exist_ok=True)
+            shutil.copy(p, os.path.join(keep, os.path.basename(p)))
         cmd = [exe]
         if threads > 1:
             cmd += ['--threads', str(threads)]
